@@ -500,6 +500,72 @@ def delegStep (locals : List IP) (st : DelegState) (rf : Referral) : DelegState 
       if r.2.isEmpty then ({ st with glue4 := r.1 }, "noauth")
       else ({ delegs := setKey st.delegs (lower owner) r.2, glue4 := r.1 }, "maxdepth")
 
+/-! ### `Resolver.lookup` winner selection and `pickFallbackResponse` -/
+
+inductive FatalKind
+  | workLimit      -- middleware.ErrRecursionWorkLimit
+  | attemptLimit   -- middleware.ErrResolutionAttemptLimit
+  | network        -- any other failure of one authority
+deriving Repr, DecidableEq
+
+inductive Fallback
+  | resp (idx : Nat)      -- responseErrors[idx]
+  | config (idx : Nat)    -- configErrors[idx]: a referral validReferral refused
+  | err (kind : String)   -- "work" | "attempt" | "conn" | "noroots"
+deriving Repr, DecidableEq
+
+/-- index of the first NXDOMAIN among the negative replies. -/
+def firstNX : List Nat → Nat → Option Nat
+  | [], _ => none
+  | rc :: t, i => if rc = 3 then some i else firstNX t (i + 1)
+
+/-- `pickFallbackResponse(responseErrors, configErrors, fatalErrors)`:
+`responseErrors` by rcode, `nConfig` invalid referrals, the failures by kind. -/
+def pickFallback (responseErrors : List Nat) (nConfig : Nat) (fatal : List FatalKind) : Fallback :=
+  if fatal.contains FatalKind.workLimit then Fallback.err "work"
+  else match firstNX responseErrors 0 with
+    | some i => Fallback.resp i
+    | none =>
+      if fatal.contains FatalKind.attemptLimit then Fallback.err "attempt"
+      else if !responseErrors.isEmpty then Fallback.resp 0
+      else if nConfig > 0 then Fallback.config 0
+      else if !fatal.isEmpty then Fallback.err "conn"
+      else Fallback.err "noroots"
+
+/-- What one authority's attempt delivered to `lookup`'s result loop. -/
+inductive Arrival
+  | failed (k : FatalKind)
+  | negative (rcode : Nat)          -- a reply with rcode ≠ NOERROR
+  | invalidReferral                 -- NOERROR, authority only, an NS set that validReferral refuses
+  | usable                          -- anything else with NOERROR: an answer, NODATA, a referral validReferral accepts
+deriving Repr, DecidableEq
+
+inductive LookupOutcome
+  | winner (pos : Nat)              -- the arrival at this position is returned at once
+  | fallback (f : Fallback)
+deriving Repr, DecidableEq
+
+/-- The result loop of `Resolver.lookup` over the arrivals in the order they
+come in (`level` = label count of the zone asked): a work-limit failure ends
+the lookup; failures and negative replies are collected (an NXDOMAIN ends the
+waiting once three negatives are in or the zone is the root / a TLD); a
+NOERROR referral that `validReferral` refuses is set aside as a config error
+and the loop goes on; any other NOERROR reply wins on the spot; when the
+arrivals run out, `pickFallbackResponse` decides. -/
+def lookupSelect (level : Nat) : List Arrival → Nat → List Nat → Nat → List FatalKind → LookupOutcome
+  | [], _, resps, ncfg, fatal => LookupOutcome.fallback (pickFallback resps ncfg fatal)
+  | a :: t, pos, resps, ncfg, fatal =>
+    match a with
+    | Arrival.failed FatalKind.workLimit => LookupOutcome.fallback (Fallback.err "work")
+    | Arrival.failed k => lookupSelect level t (pos + 1) resps ncfg (fatal ++ [k])
+    | Arrival.negative rc =>
+      let resps' := resps ++ [rc]
+      if (resps'.length > 2 || level < 2) && rc = 3 then
+        LookupOutcome.fallback (pickFallback resps' ncfg fatal)
+      else lookupSelect level t (pos + 1) resps' ncfg fatal
+    | Arrival.invalidReferral => lookupSelect level t (pos + 1) resps (ncfg + 1) fatal
+    | Arrival.usable => LookupOutcome.winner pos
+
 /-! ### `Cache.additionalAnswer` (the alias chase) -/
 
 /-- A record as the chase sees it: owner, type and, for a CNAME, its target. -/
